@@ -322,7 +322,7 @@ def users_worker(k: int, n: int) -> Any:
 
 
 def run(ctx: Ctx) -> None:
-    depth = 10 if ctx.thorough else 7
+    depth = (10 if ctx.thorough else 7) + int(__import__("os").environ.get("VF_DEEPER", 0))
     ctx.rule = (
         f"real ConnectionHeartbeat on the virtual loop; EVERY sequence of request outcomes {OUTCOMES[:5]} of length <= {depth + 1} "
         f"(complete product, not deviation bounded) and every sequence of length {depth - 1} that also contains stop()/start() during a request; reference automaton "
